@@ -212,3 +212,292 @@ Proof.
   exists [mkChunk None 0 [110%N; 111%N; 112%N]; mkChunk None 0 []], (mkOptions Lowercase Lowercase SameLine 4 20 ARight 30).
   vm_compute. discriminate.
 Qed.
+
+(* ---------------------------------------------------------------- processing a prefix of the chunk list *)
+(* join_loop over `cs` when `after` follows (the loop looks one chunk ahead) *)
+Fixpoint join_loop_ctx (o : options) (cs after : list chunk) (st : jstate) : jstate :=
+  match cs with
+  | [] => st
+  | c :: rest => join_loop_ctx o rest after (join_chunk o c (next_is_nl (rest ++ after)) (is_last (rest ++ after)) st)
+  end.
+
+Lemma join_loop_split : forall o a b st, join_loop o (a ++ b) st = join_loop o b (join_loop_ctx o a b st).
+Proof. induction a as [|c r IH]; intros b st; cbn [app join_loop join_loop_ctx]; [reflexivity | apply IH]. Qed.
+
+Lemma join_loop_ctx_app : forall o a b after st,
+  join_loop_ctx o (a ++ b) after st = join_loop_ctx o b after (join_loop_ctx o a (b ++ after) st).
+Proof.
+  induction a as [|c r IH]; intros b after st; cbn [app join_loop_ctx]; [reflexivity|].
+  rewrite IH, <- app_assoc. reflexivity.
+Qed.
+
+Lemma acc_join_loop_ctx : forall o cs after st, acc (join_loop_ctx o cs after st) = acc st ++ nows (chunks_text cs).
+Proof.
+  induction cs as [|c rest IH]; intros after st; cbn [join_loop_ctx].
+  - unfold chunks_text; simpl; rewrite app_nil_r; reflexivity.
+  - rewrite IH, acc_join_chunk. unfold chunks_text; simpl. rewrite nows_app, app_assoc; reflexivity.
+Qed.
+
+(* finished lines are only ever added *)
+Definition extends (st st' : jstate) : Prop := exists l, j_out st' = l ++ j_out st.
+Lemma extends_refl : forall st, extends st st. Proof. intros; exists []; reflexivity. Qed.
+Lemma extends_trans : forall a b c, extends a b -> extends b c -> extends a c.
+Proof. intros a b c [l1 E1] [l2 E2]. exists (l2 ++ l1). rewrite E2, E1, app_assoc; reflexivity. Qed.
+
+Lemma extends_flush : forall o st, extends st (flush_line o st).
+Proof.
+  intros o st. unfold flush_line, extends.
+  destruct (all_ws (j_line st)).
+  - destruct (negb (j_had st) && negb (j_had_label st) && (j_prev st =? 0)); cbn [j_out]; [eexists [_] | exists []]; reflexivity.
+  - destruct (o_label_margin o + o_code_margin o <? byte_len (j_line st)).
+    + destruct (split_floor (j_line st) (o_label_margin o + o_code_margin o)) as [lc cm].
+      destruct (all_ws lc); cbn [j_out]; eexists [_]; reflexivity.
+    + cbn [j_out]; eexists [_]; reflexivity.
+Qed.
+
+Lemma extends_join_piece : forall o ty e last st p, extends st (join_piece o ty e last st p).
+Proof.
+  intros. unfold join_piece.
+  assert (H : forall l a b (c : bool), extends st (if c then flush_line o (with_line st l a b) else with_line st l a b)).
+  { intros l a b c. destruct c; [| exists []; reflexivity].
+    destruct (extends_flush o (with_line st l a b)) as [x E]. exists x. exact E. }
+  destruct ty as [[|]|].
+  - destruct (o_label_margin o <? byte_len (j_line st)); [apply H|]. destruct (o_label_alignment o); apply H.
+  - destruct e; apply H.
+  - destruct (text_eqb p [NL] && negb match j_line st with [] => true | _ :: _ => false end && (byte_len (j_line st) <=? o_label_margin o)).
+    + destruct (negb true && contains_nl p || last); [apply extends_flush | apply extends_refl].
+    + apply H.
+Qed.
+
+Lemma extends_fold : forall o ty e last ps st, extends st (fold_left (join_piece o ty e last) ps st).
+Proof.
+  induction ps as [|p ps IH]; intros st; cbn [fold_left]; [apply extends_refl|].
+  eapply extends_trans; [apply extends_join_piece | apply IH].
+Qed.
+
+Lemma extends_join_chunk : forall o c e last st, extends st (join_chunk o c e last st).
+Proof.
+  intros. unfold join_chunk. eapply extends_trans; [|apply extends_fold].
+  unfold set_indent. destruct (j_indent st); exists []; reflexivity.
+Qed.
+
+Lemma extends_join_loop : forall o cs st, extends st (join_loop o cs st).
+Proof.
+  induction cs as [|c r IH]; intros st; cbn [join_loop]; [apply extends_refl|].
+  eapply extends_trans; [apply extends_join_chunk | apply IH].
+Qed.
+
+(* ---------------------------------------------------------------- a comment in front of a newline chunk ends its line *)
+(* the pending line is empty or reaches beyond the label margin: a newline chunk is then never ignored *)
+Definition wide (o : options) (st : jstate) : Prop := j_line st = [] \/ o_label_margin o < byte_len (j_line st).
+
+Lemma byte_len_ge_length : forall l, List.length l <= byte_len l.
+Proof.
+  induction l as [|c r IH]; cbn [List.length byte_len]; [lia|].
+  assert (1 <= width_utf8 c) by (unfold width_utf8; repeat destruct (_ <? _)%N; lia). lia.
+Qed.
+
+Lemma byte_len_app : forall a b, byte_len (a ++ b) = byte_len a + byte_len b.
+Proof. induction a as [|c r IH]; intros b; cbn [app byte_len]; [reflexivity | rewrite IH; lia]. Qed.
+
+Lemma pad_right_length : forall l w, w <= List.length (pad_right l w).
+Proof. intros. unfold pad_right, spaces. rewrite app_length, repeat_length. lia. Qed.
+
+Lemma wide_flush : forall o st, wide o (flush_line o st).
+Proof. intros. left. apply acc_flush. Qed.
+
+Lemma wide_comment_piece : forall o last st p, p <> [] -> wide o (join_piece o (Some Comment) true last st p).
+Proof.
+  intros o last st p Hp. unfold join_piece.
+  destruct (negb false && contains_nl p || last); [apply wide_flush|].
+  right. cbn [with_line j_line]. rewrite byte_len_app.
+  pose proof (byte_len_ge_length (pad_right (j_line st) (o_label_margin o + o_code_margin o))).
+  pose proof (pad_right_length (j_line st) (o_label_margin o + o_code_margin o)).
+  pose proof (byte_len_ge_length p). destruct p; [congruence|]. cbn [List.length] in *. lia.
+Qed.
+
+Lemma split_inclusive_pieces_nonempty : forall l, Forall (fun p => p <> []) (split_inclusive l).
+Proof.
+  induction l as [|c r IH]; cbn [split_inclusive]; [constructor|].
+  destruct (c =? NL)%N; [constructor; [congruence | exact IH]|].
+  destruct (split_inclusive r) as [|p ps]; [repeat constructor; congruence|].
+  inversion IH; subst. constructor; [congruence | assumption].
+Qed.
+
+Lemma wide_comment_fold : forall o last ps st, ps <> [] -> Forall (fun p => p <> []) ps ->
+  wide o (fold_left (join_piece o (Some Comment) true last) ps st).
+Proof.
+  induction ps as [|p ps IH]; intros st Hne Hall; [congruence|]. inversion Hall; subst. cbn [fold_left].
+  destruct ps as [|q qs]; [cbn [fold_left]; apply wide_comment_piece; assumption|].
+  apply IH; [congruence | assumption].
+Qed.
+
+Lemma wide_set_indent : forall o st i, wide o st -> wide o (set_indent st i).
+Proof. intros o st i H. unfold set_indent. destruct (j_indent st); exact H. Qed.
+
+Lemma nl_piece_flushes : forall o e last st, wide o st -> j_line (join_piece o None e last st [NL]) = [].
+Proof.
+  intros o e last st Hw. unfold join_piece.
+  assert (Hig : text_eqb [NL] [NL] && negb match j_line st with [] => true | _ :: _ => false end &&
+                (byte_len (j_line st) <=? o_label_margin o) = false).
+  { destruct Hw as [-> | Hlt]; [reflexivity|].
+    apply andb_false_intro2. apply Nat.leb_gt. exact Hlt. }
+  rewrite Hig. cbn [negb andb contains_nl existsb orb]. replace ((NL =? NL)%N) with true by reflexivity.
+  cbn [orb]. apply acc_flush.
+Qed.
+
+(* C12: a comment chunk that is followed by a newline chunk -- every `//` comment is (format_tokens emits the newline
+   trivia right behind it) -- is the last thing on its output line: the output splits, at a line boundary, into the
+   lines that hold everything up to and including the comment and the lines that hold everything behind it.
+   No later token is ever put behind a line comment. *)
+Theorem line_comment_ends_line : forall pre c ind post o,
+  c_ty c = Some Comment -> c_str c <> [] -> nonempty_chunks post ->
+  exists l1 l2, join_lines (pre ++ c :: mkChunk None ind [NL] :: post) o = l1 ++ l2 /\
+    nows (concat l1) = nows (chunks_text (pre ++ [c])) /\ nows (concat l2) = nows (chunks_text post).
+Proof.
+  intros pre c ind post o Hty Hne Hpost.
+  set (nl := mkChunk None ind [NL]).
+  replace (pre ++ c :: nl :: post) with ((pre ++ [c; nl]) ++ post) by (rewrite <- app_assoc; reflexivity).
+  unfold join_lines. rewrite join_loop_split.
+  set (S1 := join_loop_ctx o (pre ++ [c; nl]) post j_init).
+  assert (Hline1 : j_line S1 = []).
+  { subst S1. rewrite join_loop_ctx_app. cbn [join_loop_ctx app].
+    set (S0 := join_loop_ctx o pre ([c; nl] ++ post) j_init).
+    unfold join_chunk at 1. cbn [c_str c_ty nl split_inclusive fold_left]. replace ((NL =? NL)%N) with true by reflexivity.
+    cbn [fold_left]. apply nl_piece_flushes.
+    unfold join_chunk. rewrite Hty. cbn [next_is_nl is_nl_chunk c_str nl text_eqb].
+    replace ((NL =? NL)%N) with true by reflexivity. cbn [andb].
+    apply wide_set_indent.
+    apply wide_comment_fold; [apply split_inclusive_nonempty; assumption | apply split_inclusive_pieces_nonempty]. }
+  pose proof (acc_join_loop_ctx o (pre ++ [c; nl]) post j_init) as Hacc1. fold S1 in Hacc1.
+  unfold acc at 1 in Hacc1. rewrite Hline1 in Hacc1. cbn [nows filter] in Hacc1. rewrite app_nil_r in Hacc1.
+  change (acc j_init) with (@nil N) in Hacc1. cbn [app] in Hacc1.
+  destruct (extends_join_loop o post S1) as [l2r E2].
+  exists (rev (j_out S1)), (rev l2r). split; [rewrite E2, rev_app_distr; reflexivity|]. split.
+  - rewrite Hacc1. unfold chunks_text. rewrite !map_app, !concat_app, !nows_app. subst nl. cbn [map concat c_str].
+    rewrite !app_nil_r, nows_app. f_equal. change (nows [NL]) with (@nil N). apply app_nil_r.
+  - pose proof (acc_join_loop o post S1) as HaccF. unfold acc in HaccF. rewrite Hline1 in HaccF.
+    assert (HlineF : j_line (join_loop o post S1) = []).
+    { destruct post as [|p ps]; [exact Hline1 | apply line_join_loop; [congruence | assumption]]. }
+    rewrite HlineF, E2, rev_app_distr, concat_app, nows_app in HaccF. cbn [nows filter] in HaccF.
+    rewrite !app_nil_r in HaccF. apply app_inv_head in HaccF. exact HaccF.
+Qed.
+
+(* ---------------------------------------------------------------- C13: blank lines are squeezed *)
+Definition is_nil (l : text) : bool := match l with [] => true | _ => false end.
+(* no two adjacent empty lines *)
+Fixpoint nab (ls : list text) : bool :=
+  match ls with
+  | a :: ((b :: _) as r) => negb (is_nil a && is_nil b) && nab r
+  | _ => true
+  end.
+Definition hd_nonblank (ls : list text) : Prop := match ls with [] => True | x :: _ => x <> [] end.
+
+Lemma trim_start_all_ws : forall l, all_ws l = true -> trim_start l = [].
+Proof.
+  induction l as [|c r IH]; cbn [all_ws forallb trim_start]; intros H; [reflexivity|].
+  apply andb_prop in H as [Hc Hr]. rewrite Hc. apply IH. exact Hr.
+Qed.
+
+Lemma all_ws_rev : forall l, all_ws (rev l) = all_ws l.
+Proof.
+  unfold all_ws. induction l as [|c r IH]; [reflexivity|]. cbn [rev forallb].
+  rewrite forallb_app, IH. cbn [forallb]. rewrite andb_true_r. apply andb_comm.
+Qed.
+
+Lemma trim_end_all_ws : forall l, all_ws l = true -> trim_end l = [].
+Proof. intros l H. unfold trim_end. rewrite trim_start_all_ws; [reflexivity | rewrite all_ws_rev; exact H]. Qed.
+
+Lemma trim_start_nonempty : forall l, all_ws l = false -> trim_start l <> [].
+Proof.
+  induction l as [|c r IH]; cbn [all_ws forallb trim_start]; intros H; [discriminate|].
+  destruct (is_ws c); [apply IH; exact H | discriminate].
+Qed.
+
+Lemma trim_end_nonempty : forall l, all_ws l = false -> trim_end l <> [].
+Proof.
+  intros l H. unfold trim_end. intros E.
+  assert (E' : trim_start (rev l) = []) by (apply (f_equal (@rev N)) in E; rewrite rev_involutive in E; exact E).
+  revert E'. apply trim_start_nonempty. rewrite all_ws_rev. exact H.
+Qed.
+
+Lemma all_ws_app : forall a b, all_ws (a ++ b) = all_ws a && all_ws b.
+Proof. intros; unfold all_ws; apply forallb_app. Qed.
+
+Lemma all_ws_spaces : forall n, all_ws (spaces n) = true.
+Proof. induction n; [reflexivity | exact IHn]. Qed.
+
+Lemma all_ws_pad_nil : forall w, all_ws (pad_right [] w) = true.
+Proof. intros; unfold pad_right; cbn [app List.length]. apply all_ws_spaces. Qed.
+
+(* the invariant of blank-line squeezing: no two adjacent empty lines so far, and an empty newest line is remembered *)
+Definition squeezed (st : jstate) : Prop := nab (j_out st) = true /\ (j_prev st = 0 -> hd_nonblank (j_out st)).
+
+Lemma nab_cons_nonblank : forall x l, x <> [] -> nab l = true -> nab (x :: l) = true.
+Proof. intros x l Hx Hl. destruct l as [|b r]; [reflexivity|]. cbn [nab]. destruct x; [congruence|]. cbn. exact Hl. Qed.
+
+Lemma squeezed_flush : forall o st, squeezed st -> squeezed (flush_line o st).
+Proof.
+  intros o st [Hnab Hprev]. unfold flush_line, squeezed.
+  destruct (all_ws (j_line st)) eqn:Ews.
+  - destruct (negb (j_had st) && negb (j_had_label st) && (j_prev st =? 0)) eqn:Eadd; cbn [j_out j_prev].
+    + apply andb_prop in Eadd as [_ Ep]. apply Nat.eqb_eq in Ep. specialize (Hprev Ep).
+      rewrite trim_end_all_ws by (rewrite all_ws_app, all_ws_pad_nil, Ews; reflexivity).
+      split; [|discriminate]. destruct (j_out st) as [|b r]; [reflexivity|]. cbn [nab]. cbn in Hprev.
+      destruct b; [congruence|]. cbn. exact Hnab.
+    + split; assumption.
+  - assert (Hadd : forall line', all_ws line' = false -> forall ind,
+             nab (trim_end (pad_right [] ind ++ line') :: j_out st) = true /\
+             (0 = 0 -> hd_nonblank (trim_end (pad_right [] ind ++ line') :: j_out st))).
+    { intros line' Hl ind.
+      assert (Hx : trim_end (pad_right [] ind ++ line') <> []).
+      { apply trim_end_nonempty. rewrite all_ws_app, Hl. apply andb_false_r. }
+      split; [apply nab_cons_nonblank; assumption | intros _; exact Hx]. }
+    destruct (o_label_margin o + o_code_margin o <? byte_len (j_line st)).
+    + pose proof (split_floor_app (j_line st) (o_label_margin o + o_code_margin o)) as Hs.
+      destruct (split_floor (j_line st) (o_label_margin o + o_code_margin o)) as [lc cm]. cbn [fst snd] in Hs.
+      destruct (all_ws lc) eqn:Elc; cbn [j_out j_prev]; apply Hadd; [|exact Ews].
+      rewrite all_ws_app, all_ws_pad_nil. cbn [andb].
+      rewrite <- Hs, all_ws_app, Elc in Ews. exact Ews.
+    + cbn [j_out j_prev]. apply Hadd. exact Ews.
+Qed.
+
+Lemma squeezed_join_piece : forall o ty e last st p, squeezed st -> squeezed (join_piece o ty e last st p).
+Proof.
+  intros o ty e last st p H. unfold join_piece.
+  assert (Hw : forall l a b (c : bool), squeezed (if c then flush_line o (with_line st l a b) else with_line st l a b)).
+  { intros l a b c. destruct c; [apply squeezed_flush|]; exact H. }
+  destruct ty as [[|]|].
+  - destruct (o_label_margin o <? byte_len (j_line st)); [apply Hw|]. destruct (o_label_alignment o); apply Hw.
+  - destruct e; apply Hw.
+  - destruct (text_eqb p [NL] && negb match j_line st with [] => true | _ :: _ => false end && (byte_len (j_line st) <=? o_label_margin o)).
+    + destruct (negb true && contains_nl p || last); [apply squeezed_flush|]; exact H.
+    + apply Hw.
+Qed.
+
+Lemma squeezed_join_loop : forall o cs st, squeezed st -> squeezed (join_loop o cs st).
+Proof.
+  induction cs as [|c r IH]; intros st H; cbn [join_loop]; [exact H|]. apply IH. unfold join_chunk.
+  assert (H0 : squeezed (set_indent st (c_indent c))) by (unfold set_indent; destruct (j_indent st); exact H).
+  revert H0. generalize (set_indent st (c_indent c)). induction (split_inclusive (c_str c)) as [|p ps IHp]; intros s Hs; cbn [fold_left];
+    [exact Hs | apply IHp; apply squeezed_join_piece; exact Hs].
+Qed.
+
+Lemma nab_pair_false : forall x y, nab (x ++ [] :: [] :: y) = false.
+Proof.
+  induction x as [|a r IH]; intros y; cbn [app]; [reflexivity|].
+  cbn [nab]. destruct (r ++ [] :: [] :: y) eqn:E; [destruct r; discriminate|].
+  rewrite <- E, IH. apply andb_false_r.
+Qed.
+
+(* C13: join_chunks never emits two adjacent empty lines, whatever the chunk list and the options: a second run finds at
+   most single empty lines and keeps each of them *)
+Theorem blank_lines_squeezed : forall cs o a b, join_lines cs o <> a ++ [] :: [] :: b.
+Proof.
+  intros cs o a b E. unfold join_lines in E.
+  assert (H : squeezed (join_loop o cs j_init)) by (apply squeezed_join_loop; split; [reflexivity | intros _; exact I]).
+  destruct H as [Hnab _].
+  assert (E' : j_out (join_loop o cs j_init) = rev b ++ [] :: [] :: rev a).
+  { rewrite <- (rev_involutive (j_out _)), E, rev_app_distr. cbn [rev]. rewrite <- !app_assoc. reflexivity. }
+  rewrite E', nab_pair_false in Hnab. discriminate.
+Qed.
